@@ -497,6 +497,8 @@ class Transform(object):
 
         if self._recast_as_float64:
             self.IM = self.IM.astype('float64')
+        else:
+            self.IM = self.IM.copy()  # (not the caller's array itself)
 
     def _center_image(self, method, **center_options):
         if method != "none":
